@@ -105,10 +105,18 @@ class BoundV:
     func: Optional[str] = None  # zorg qualname when resolved
 
 
-@dataclass(frozen=True)
 class LambdaV:
-    node: Any
-    env_id: int
+    """Lambda / nested def with a snapshot of the defining frame (closure)."""
+
+    __slots__ = ("node", "closure", "module")
+
+    def __init__(self, node: Any, closure: dict, module: Any = None):
+        self.node = node
+        self.closure = closure
+        self.module = module
+
+    def __repr__(self) -> str:
+        return f"LambdaV(L{getattr(self.node, 'lineno', '?')})"
 
 
 class Ref:
